@@ -151,16 +151,16 @@ def draw_params(draw, name, t, opts, depth_left, no_ct, tainted=False):
         return [name, draw(st.lists(ints(-1, 9), max_size=3))]
     if name == 'group_by':
         inner = draw(chain(t, opts, depth_left - 1, no_ct=False, tainted=tainted))
-        return [name, draw(ints(2, 3)), inner]
+        return [name, draw(st.sampled_from([2, 3, 2, 3, 4])), inner]
     if name == 'roll':
         w = draw(ints(1, 5))
         s = draw(ints(1, 5))
         return [name, w, s, draw(chain(t, opts, depth_left - 1, no_ct=False, tainted=tainted))]
     if name == 'split':
-        return [name, draw(st.sampled_from(['div', 'mod', 'nonemod', 'gkey'])), draw(ints(2, 3)), draw(chain(t, opts, depth_left - 1, no_ct=False, tainted=tainted))]
+        return [name, draw(st.sampled_from(['div', 'mod', 'nonemod', 'gkey', 'nanmod'])), draw(ints(2, 3)), draw(chain(t, opts, depth_left - 1, no_ct=False, tainted=tainted))]
     if name == 'time_split':
-        active = draw(st.sampled_from([None, 1, 3, 5, 8]))
-        inactive = draw(st.sampled_from([None, 1, 2, 3]))
+        active = draw(st.sampled_from([None, 1, 3, 5, 8, 0]))
+        inactive = draw(st.sampled_from([None, 1, 2, 3, 0]))
         closing = draw(st.one_of(st.none(), st.tuples(ints(2, 4), ints(0, 1)).map(list)))
         return [name, active, inactive, closing, draw(st.booleans()), draw(chain(t, opts, depth_left - 1, no_ct=False, tainted=tainted))]
     if name == 'tee':
